@@ -1103,3 +1103,241 @@ Proof.
   - apply laws_map; trivial.
   - apply (laws_scalar _ (SBytes b)); reflexivity.
 Qed.
+
+(* ================================================================== headline statements *)
+Lemma vcmp_opp a b : wf a -> wf b -> vcmp b a = CompOpp (vcmp a b).
+Proof. intros Wa Wb. apply (vcmp_laws a Wa b Wb). Qed.
+
+Lemma vcmp_eq_iff a b : wf a -> wf b -> (vcmp a b = Eq <-> veq a b = true).
+Proof. intros Wa Wb. apply (vcmp_laws a Wa b Wb). Qed.
+
+Lemma vcmp_tr a b d : wf a -> wf b -> wf d -> tr (vcmp a b) (vcmp b d) (vcmp a d).
+Proof. intros Wa Wb Wd. apply (vcmp_laws a Wa b Wb); trivial. Qed.
+
+Lemma vcmp_refl a : wf a -> vcmp a a = Eq.
+Proof. intros Wa. pose proof (vcmp_opp a a Wa Wa) as H. destruct (vcmp a a); trivial; discriminate. Qed.
+
+Definition vle (a b : value) : Prop := vcmp a b <> Gt.
+
+Theorem veq_equivalence :
+  (forall a, wf a -> veq a a = true) /\
+  (forall a b, wf a -> wf b -> veq a b = true -> veq b a = true) /\
+  (forall a b c, wf a -> wf b -> wf c -> veq a b = true -> veq b c = true -> veq a c = true).
+Proof.
+  split; [|split].
+  - intros a Wa. apply vcmp_eq_iff; trivial. apply vcmp_refl; trivial.
+  - intros a b Wa Wb H. apply vcmp_eq_iff in H; trivial. apply vcmp_eq_iff; trivial.
+    rewrite vcmp_opp, H; trivial.
+  - intros a b c Wa Wb Wc H1 H2. apply vcmp_eq_iff in H1, H2; trivial. apply vcmp_eq_iff; trivial.
+    pose proof (vcmp_tr a b c Wa Wb Wc) as T. rewrite H1, H2 in T. exact T.
+Qed.
+
+Theorem vcmp_total_order :
+  (* total: the two directions are mirror images, so exactly one of <, =, > holds *)
+  (forall a b, wf a -> wf b -> vcmp b a = CompOpp (vcmp a b)) /\
+  (forall a b, wf a -> wf b -> vle a b \/ vle b a) /\
+  (* transitive, strictly and weakly, and compatible with Equal on either side *)
+  (forall a b c, wf a -> wf b -> wf c -> vcmp a b = Lt -> vcmp b c = Lt -> vcmp a c = Lt) /\
+  (forall a b c, wf a -> wf b -> wf c -> vle a b -> vle b c -> vle a c) /\
+  (forall a b c, wf a -> wf b -> wf c -> vcmp a b = Eq -> vcmp a c = vcmp b c) /\
+  (* antisymmetric up to ==, and Equal exactly when == *)
+  (forall a b, wf a -> wf b -> vle a b -> vle b a -> veq a b = true) /\
+  (forall a b, wf a -> wf b -> (vcmp a b = Eq <-> veq a b = true)).
+Proof.
+  split; [|split; [|split; [|split; [|split; [|split]]]]].
+  - apply vcmp_opp.
+  - intros a b Wa Wb. unfold vle. rewrite (vcmp_opp a b Wa Wb).
+    destruct (vcmp a b); cbn; [left|left|right]; discriminate.
+  - intros a b c Wa Wb Wc H1 H2. pose proof (vcmp_tr a b c Wa Wb Wc) as T. rewrite H1, H2 in T. exact T.
+  - intros a b c Wa Wb Wc. unfold vle. intros H1 H2.
+    pose proof (vcmp_tr a b c Wa Wb Wc) as T.
+    destruct (vcmp a b), (vcmp b c); cbn in T; try congruence.
+  - intros a b c Wa Wb Wc H. pose proof (vcmp_tr a b c Wa Wb Wc) as T. rewrite H in T. exact T.
+  - intros a b Wa Wb. unfold vle. rewrite (vcmp_opp a b Wa Wb). intros H1 H2.
+    apply vcmp_eq_iff; trivial. destruct (vcmp a b); cbn in *; congruence.
+  - intros a b Wa Wb. apply vcmp_eq_iff; trivial.
+Qed.
+
+(* the unrepaired Ord impl (before fixes/D2-total-order.patch) is not a lawful order *)
+Definition d2_m1 := VMap [(KStr [97%N] true, VInt U64 1)].
+Definition d2_m2 := VMap [(KStr [97%N] true, VInt U64 2)].
+Definition d2_a1 := VArr [VInt U64 1; VStr [97%N] false].
+Definition d2_a2 := VArr [VInt U64 1; VBool true].
+Definition d2_a3 := VArr [VInt U64 1; VStr [98%N] false].
+
+Lemma vcmp_unfixed_refuted :
+  (exists a b, wf a /\ wf b /\ vcmp_unfixed a b = Eq /\ veq a b = false) /\
+  (exists a b c, wf a /\ wf b /\ wf c /\
+     vcmp_unfixed a b = Eq /\ vcmp_unfixed b c = Eq /\ vcmp_unfixed a c = Lt).
+Proof.
+  split.
+  - exists d2_m1, d2_m2. repeat split; vm_compute; reflexivity.
+  - exists d2_a1, d2_a2, d2_a3. repeat split; vm_compute; reflexivity.
+Qed.
+
+(* `<` of templates (partial_cmp) agrees with the total order wherever it is defined, and is
+   defined exactly on ==-comparable material *)
+Lemma vpcmp_some_vcmp : forall a, wf a -> forall b, wf b -> forall r, vpcmp a b = Some r -> vcmp a b = r.
+Proof.
+  apply (value_ind' (fun a => wf a -> forall b, wf b -> forall r, vpcmp a b = Some r -> vcmp a b = r)).
+  1-6, 9: intros; rewrite vcmp_flat by reflexivity;
+    match goal with H : vpcmp _ _ = Some _ |- _ => rewrite H end; reflexivity.
+  - intros l IH Wa b Wb r H. destruct b as [| |bb|rb zb|fb|sb sfb|l'|mb|bsb]; try (cbn in H; discriminate H).
+    rewrite vcmp_arr. cbn [vpcmp] in H. apply wf_arr in Wa, Wb.
+    revert l' Wb r H. induction l as [|x t IHt]; intros l' Wl' r H; destruct l' as [|y t']; cbn in *;
+      try (inversion H; reflexivity).
+    inversion IH as [|? ? Hx Ht]; subst. inversion Wa; subst. inversion Wl'; subst.
+    destruct (vpcmp x y) as [[]|] eqn:E; try discriminate.
+    + rewrite (Hx ltac:(assumption) y ltac:(assumption) Eq E). apply IHt; trivial.
+    + rewrite (Hx ltac:(assumption) y ltac:(assumption) Lt E). inversion H; reflexivity.
+    + rewrite (Hx ltac:(assumption) y ltac:(assumption) Gt E). inversion H; reflexivity.
+  - intros m IH Wa b Wb r H. destruct b; cbn in H; discriminate.
+Qed.
+
+(* ================================================================== lookups *)
+Lemma attr_scan_eq_hash m attr : attr_scan m attr = attr_hash m attr.
+Proof.
+  unfold attr_hash. induction m as [|[k v] t IH]; cbn; trivial.
+  destruct k as [b|r z|s o]; cbn.
+  - exact IH.
+  - destruct r; exact IH.
+  - unfold str_eqb in *. destruct (list_eqb N.eqb s attr); trivial.
+Qed.
+
+Lemma get_attr_spec v attr :
+  get_attr v attr = match v with VMap m => map_get m (KStr attr false) | _ => None end.
+Proof.
+  destruct v; trivial. unfold get_attr.
+  destruct (Nat.leb (length m) attr_scan_cutoff); trivial. apply attr_scan_eq_hash.
+Qed.
+
+Lemma map_get_spec {V} (m : list (key * V)) k v : kwf m -> kdist m -> key_wf k = true ->
+  (map_get m k = Some v <-> exists k', In (k', v) m /\ key_norm k' = key_norm k).
+Proof.
+  intros Kw Kd Hk. split.
+  - intros H. destruct (map_get_some _ _ _ H) as [k' [Hin Hke]]. exists k'. split; trivial.
+    apply key_eq_norm; trivial. unfold kwf in Kw. rewrite Forall_forall in Kw. apply (Kw (k', v)); trivial.
+  - intros [k' [Hin Hn]]. apply (map_get_unique m k k' v); trivial.
+    apply key_eq_norm; trivial. unfold kwf in Kw. rewrite Forall_forall in Kw. apply (Kw (k', v)); trivial.
+Qed.
+
+Lemma map_get_found_iff {V} (m : list (key * V)) k : kwf m -> key_wf k = true ->
+  (map_get m k <> None <-> In (key_norm k) (map K m)).
+Proof.
+  intros Kw Hk. unfold kwf in Kw. rewrite Forall_forall in Kw. split.
+  - destruct (map_get m k) as [v|] eqn:G; try congruence. intros _.
+    destruct (map_get_some _ _ _ G) as [k' [Hin Hke]].
+    apply in_map_iff. exists (k', v). split; trivial. unfold K; cbn.
+    apply key_eq_norm; trivial. apply (Kw (k', v)); trivial.
+  - intros Hin. apply in_map_iff in Hin as [[k' v] [Q Hin]]. unfold K in Q; cbn in Q.
+    destruct (map_get m k) eqn:G; try congruence.
+    pose proof (map_get_none _ _ G k' v Hin) as F.
+    assert (T : key_eq k' k = true) by (apply key_eq_norm; trivial; apply (Kw (k', v)); trivial).
+    congruence.
+Qed.
+
+(* the iteration order of the HashMap is irrelevant *)
+Lemma map_get_perm {V} (m m' : list (key * V)) k : kwf m -> kdist m -> key_wf k = true ->
+  Permutation m m' -> map_get m k = map_get m' k.
+Proof.
+  intros Kw Kd Hk P.
+  assert (Kw' : kwf m') by (unfold kwf in *; eapply Permutation_Forall; eauto).
+  assert (Kd' : kdist m') by (unfold kdist in *; eapply Permutation_NoDup; [apply Permutation_map; eauto|trivial]).
+  destruct (map_get m k) as [v|] eqn:G.
+  - symmetry. apply map_get_spec; trivial. apply map_get_spec in G; trivial.
+    destruct G as [k' [Hin Q]]. exists k'. split; trivial. eapply Permutation_in; eauto.
+  - destruct (map_get m' k) as [v'|] eqn:G'; trivial.
+    apply map_get_spec in G'; trivial. destruct G' as [k' [Hin Q]].
+    apply (Permutation_in _ (Permutation_sym P)) in Hin.
+    assert (S : map_get m k = Some v') by (apply map_get_spec; eauto). congruence.
+Qed.
+
+(* HashMap::insert *)
+Lemma map_insert_get {V} (m : list (key * V)) k v k0 : kwf m -> key_wf k = true -> key_wf k0 = true ->
+  map_get (map_insert m k v) k0 =
+    if key_eq k k0 then Some v else map_get m k0.
+Proof.
+  intros Kw Hk Hk0. induction m as [|[k1 v1] t IH]; cbn.
+  - reflexivity.
+  - inversion Kw as [|? ? Hk1 Kt]; subst. cbn in Hk1.
+    destruct (key_eq k1 k) eqn:E1; cbn.
+    + (* replaced *)
+      assert (Q : key_eq k1 k0 = key_eq k k0).
+      { apply key_eq_norm in E1; trivial.
+        destruct (key_eq k1 k0) eqn:A, (key_eq k k0) eqn:B; trivial.
+        - apply key_eq_norm in A; trivial. rewrite E1 in A. apply key_eq_norm in A; trivial. congruence.
+        - apply key_eq_norm in B; trivial. rewrite <- E1 in B. apply key_eq_norm in B; trivial. congruence. }
+      rewrite Q. destruct (key_eq k k0) eqn:B; trivial.
+    + destruct (key_eq k1 k0) eqn:A.
+      * destruct (key_eq k k0) eqn:B; trivial. exfalso.
+        apply key_eq_norm in A; trivial. apply key_eq_norm in B; trivial.
+        assert (C : key_eq k1 k = true) by (apply key_eq_norm; trivial; congruence). congruence.
+      * apply IH; trivial.
+Qed.
+
+Lemma map_insert_keys {V} (m : list (key * V)) k v n : kwf m -> key_wf k = true ->
+  (In n (map K (map_insert m k v)) <-> n = key_norm k \/ In n (map K m)).
+Proof.
+  unfold kwf. intros Kw Hk. induction m as [|[k1 v1] t IH]; cbn.
+  - unfold K; cbn. split; [intros [<-|[]]; auto | intros [->|[]]; auto].
+  - inversion Kw as [|? ? Hk1 Kt]; subst. cbn in Hk1.
+    destruct (key_eq k1 k) eqn:E1; cbn; unfold K at 1; cbn.
+    + apply key_eq_norm in E1; trivial. unfold K at 2; cbn. intuition congruence.
+    + rewrite (IH Kt). unfold K at 2; cbn. intuition congruence.
+Qed.
+
+Lemma map_insert_inv {V} (m : list (key * V)) k v : kwf m -> kdist m -> key_wf k = true ->
+  kwf (map_insert m k v) /\ kdist (map_insert m k v).
+Proof.
+  unfold kwf, kdist. intros Kw Kd Hk. induction m as [|[k1 v1] t IH]; cbn.
+  - split; repeat constructor; trivial. intros [].
+  - inversion Kw as [|? ? Hk1 Kt]; subst. inversion Kd as [|? ? Hnin Kd']; subst. cbn in Hk1.
+    destruct (key_eq k1 k) eqn:E1.
+    + split; cbn; constructor; trivial.
+    + destruct (IH Kt Kd') as [I1 I2]. split; cbn; constructor; trivial.
+      intros Q. apply map_insert_keys in Q; trivial. destruct Q as [Q|Q]; try contradiction.
+      unfold K in Q; cbn in Q.
+      assert (C : key_eq k1 k = true) by (apply key_eq_norm; trivial). congruence.
+Qed.
+
+(* a map built by a sequence of inserts finds a key exactly when an equal key was inserted, and
+   returns the last value inserted under an equal key *)
+Definition assoc_last {V} (l : list (key * V)) (k : key) : option V :=
+  fold_left (fun acc kv => if key_eq (fst kv) k then Some (snd kv) else acc) l None.
+
+Lemma map_from_list_gen {V} (l : list (key * V)) : forall m k, kwf m -> kdist m -> kwf l -> key_wf k = true ->
+  let m' := fold_left (fun m kv => map_insert m (fst kv) (snd kv)) l m in
+  kwf m' /\ kdist m' /\
+  map_get m' k = fold_left (fun acc kv => if key_eq (fst kv) k then Some (snd kv) else acc) l (map_get m k).
+Proof.
+  induction l as [|[k1 v1] t IH]; intros m k Kw Kd Kl Hk; cbn.
+  - auto.
+  - inversion Kl as [|? ? Hk1 Kt]; subst. cbn in Hk1.
+    destruct (map_insert_inv m k1 v1 Kw Kd Hk1) as [I1 I2].
+    destruct (IH (map_insert m k1 v1) k I1 I2 Kt Hk) as [J1 [J2 J3]].
+    repeat split; trivial. cbn in J3. rewrite J3. rewrite map_insert_get; trivial.
+Qed.
+
+Lemma map_from_list_spec {V} (l : list (key * V)) k : kwf l -> key_wf k = true ->
+  kwf (map_from_list l) /\ kdist (map_from_list l) /\
+  map_get (map_from_list l) k = assoc_last l k.
+Proof.
+  intros Kl Hk. apply (map_from_list_gen l [] k); trivial.
+  - constructor. - constructor.
+Qed.
+
+Lemma assoc_last_found {V} (l : list (key * V)) k : kwf l -> key_wf k = true ->
+  (assoc_last l k <> None <-> In (key_norm k) (map K l)).
+Proof.
+  intros Kl Hk. unfold assoc_last.
+  assert (G : forall acc, fold_left (fun acc kv => if key_eq (fst kv) k then Some (snd kv) else acc) l acc <> None
+                <-> (acc <> None \/ In (key_norm k) (map K l))).
+  { induction l as [|[k1 v1] t IH]; intros acc; cbn.
+    - tauto.
+    - inversion Kl as [|? ? Hk1 Kt]; subst. cbn in Hk1. rewrite (IH Kt). unfold K at 2; cbn.
+      destruct (key_eq k1 k) eqn:E.
+      + apply key_eq_norm in E; trivial. split; auto. intros _. left. discriminate.
+      + split; [intros [?|?]; auto | intros [?|[Q|?]]; auto].
+        exfalso. assert (C : key_eq k1 k = true) by (apply key_eq_norm; trivial). congruence. }
+  rewrite G. split; [intros [?|?]; trivial; congruence | auto].
+Qed.
